@@ -21,8 +21,10 @@ import (
 )
 
 type ATLocalTx struct {
-	Explicit bool
-	Stmts    []*ATStmt
+	// ContinueOnError: the application ignores a failed statement, carries on and commits (explicit only)
+	ContinueOnError bool
+	Explicit        bool
+	Stmts           []*ATStmt
 }
 
 type ATCase struct {
@@ -180,16 +182,16 @@ func parseLockKeys(lk string) string {
 }
 
 type ATRun struct {
-	w        *ATWorld
-	c        *ATCase
-	xid      string
-	Branches []BranchInfo
-	Obs      []string // observation segments, in the model's format
-	Toks     []string // script tokens for the model
-	Initial  string
-	crash    string
-	lateCommit string // set when a local transaction committed writes after its branch had been rolled back early
-	Logs     []*undo.BranchUndoLog // decoded undo log per registered branch (nil if none)
+	w          *ATWorld
+	c          *ATCase
+	xid        string
+	Branches   []BranchInfo
+	Obs        []string // observation segments, in the model's format
+	Toks       []string // script tokens for the model
+	Initial    string
+	crash      string
+	lateCommit string                // set when a local transaction committed writes after its branch had been rolled back early
+	Logs       []*undo.BranchUndoLog // decoded undo log per registered branch (nil if none)
 }
 
 // undoLogOf returns the decoded undo log of a branch (nil if there is no normal row)
@@ -244,7 +246,11 @@ func (r *ATRun) PhaseOne(hook func(r *ATRun, localIdx int)) {
 	r.crash = safeCall(func() {
 		r.xid, _ = InGlobalTx(c.ID, func(ctx context.Context) error {
 			for li, ltx := range c.Locals {
-				r.Toks = append(r.Toks, "L")
+				if ltx.Explicit && ltx.ContinueOnError {
+					r.Toks = append(r.Toks, "Lc")
+				} else {
+					r.Toks = append(r.Toks, "L")
+				}
 				nBefore := len(w.coord.RegisteredBranches(tmXID(ctx)))
 				var err error
 				if ltx.Explicit {
@@ -254,7 +260,9 @@ func (r *ATRun) PhaseOne(hook func(r *ATRun, localIdx int)) {
 						for _, st := range ltx.Stmts {
 							q, args, tok := st.Render(sc)
 							r.Toks = append(r.Toks, tok)
-							if err == nil {
+							if ltx.ContinueOnError {
+								tx.ExecContext(ctx, q, args...)
+							} else if err == nil {
 								_, err = tx.ExecContext(ctx, q, args...)
 							}
 						}
